@@ -585,7 +585,8 @@ class HybridLock(object):
             return None
         if self._sim is not sim:
             self._sim = sim
-            self._sim_lock = SimLock(sim, self.name)
+            sim._hlocks = getattr(sim, '_hlocks', 0) + 1      # names are per simulation: logs must not depend on process history
+            self._sim_lock = SimLock(sim, 'hlock%d' % sim._hlocks)
         return self._sim_lock
 
     def acquire(self, blocking=True, timeout=-1):
